@@ -160,6 +160,9 @@ func c16Docs(thorough bool) []*vfJ {
 		docs = append(docs,
 			vfJO(`"a.b"`, s(`1`), `"c"`, vfJO(`"d e"`, s(`"x"`), `"f"`, vfJA())),
 			vfJO(`"deep"`, vfJO(`"l1"`, vfJO(`"l2"`, vfJA(s(`1`), vfJO(`"l3"`, s(`"v"`))))), `"w"`, s(`false`)),
+			vfJA(vfJA(s(`1`), s(`2`)), vfJA(s(`"a"`), vfJA(s(`true`), s(`null`)))),
+			vfJO(`"id"`, s(`"7f3c"`), `"ts"`, s(`1700000000`), `"items"`, vfJA(vfJO(`"sku"`, s(`"A1"`), `"qty"`, s(`2`), `"price"`, s(`9.99`)), vfJO(`"sku"`, s(`"B2"`), `"qty"`, s(`1`), `"price"`, s(`0.5`))), `"meta"`, vfJO(`"tags"`, vfJA(), `"note"`, s(`""`))),
+			vfJO(`"x"`, s(`"[TestA - 1]"`), `"y"`, s(`"---"`), `"z"`, vfJO(`"w"`, s(`"/-/-/-/"`), `"v"`, s(`"$1 %d"`))),
 		)
 	}
 	return docs
@@ -180,6 +183,19 @@ func c16Gen(c *vfCtx, emit func(c16Case)) {
 					continue
 				}
 				masks = append(masks, []int{i, j})
+				if c.thorough() {
+					for k := j + 1; k < len(ps); k++ {
+						nested := false
+						for _, q := range [][]vfJStep{ps[i], ps[j]} {
+							if len(ps[k]) > len(q) && fmt.Sprint(ps[k][:len(q)]) == fmt.Sprint(q) {
+								nested = true
+							}
+						}
+						if !nested && (i+j+k)%3 == 0 {
+							masks = append(masks, []int{i, j, k})
+						}
+					}
+				}
 			}
 		}
 		for _, api := range []string{"json", "sjson", "yaml-flow", "yaml-block"} {
